@@ -8,7 +8,8 @@
  *   - vw_free / vw_fclose / vw_realloc   (release in confuse.c), or
  *   - __wrap_free / __wrap_fclose / __wrap_realloc: the executable is linked with
  *     -Wl,--wrap=free,--wrap=realloc,--wrap=fclose, so releases done by lexer.c
- *     or by the harness (plain free()/fclose()) pass through here as well.
+ *     or by the harness (plain free()/fclose()) pass through here as well (in a
+ *     -static link also the ones inside libc.a, which is harmless).
  * Releasing an address that is not in the table (allocated by lexer.c, by the
  * harness, by libc) is simply forwarded.
  *
